@@ -49,8 +49,12 @@ func (u *URL) formatSSH() string {
 	// Add port if present. A zero port is normally omitted, but if the path
 	// itself begins with something that would be parsed as a port specification
 	// (a potentially empty digit sequence followed by a colon), then the zero
-	// port has to be written explicitly for the result to be reparsable.
-	if u.Port != 0 || pathResemblesPortSpecification(u.Path) {
+	// port has to be written explicitly for the result to be reparsable. The
+	// same is true if omitting the port would yield a URL beginning with the
+	// Docker URL prefix (which is only possible for a host that spells the
+	// Docker scheme and a path that begins with two slashes), because such a
+	// URL would be reparsed as a Docker URL.
+	if u.Port != 0 || pathResemblesPortSpecification(u.Path) || isDockerURL(result+":"+u.Path) {
 		result = fmt.Sprintf("%s:%d", result, u.Port)
 	}
 
